@@ -281,6 +281,10 @@ func (b *Box) Send(msgType uint8, topic []byte, msg []byte, to ...UniversalID) {
 	if msgs != nil {
 		msgs.lock.RLock()
 		messages = msgs.messages
+		// The topic has started: its senders no longer have it in flight
+		for sender := range msgs.messageCountPerSender {
+			delete(b.totalInFlightTopicsBySender[sender], string(topic))
+		}
 		msgs.lock.RUnlock()
 	}
 
